@@ -17,10 +17,12 @@ import (
 	"github.com/dave/dst"
 	"github.com/dave/dst/decorator"
 	"github.com/dave/dst/decorator/resolver"
+	"github.com/dave/dst/decorator/resolver/goast"
 	"github.com/dave/dst/decorator/resolver/guess"
 	"github.com/dave/dst/decorator/resolver/simple"
 
 	"verif/internal/fw"
+	"verif/internal/obs"
 )
 
 func init() {
@@ -525,6 +527,53 @@ func c07One(c *fw.Ctx, id string) {
 			return
 		}
 	}
+	// a second pass over the restorer's own output: the restored ast (not its text) is decorated
+	// again with the syntax-only resolver and restored with the same settings; references and
+	// imports are bound as before, so the text is the same
+	func() {
+		f2, _, _ := cfg.build()
+		rs := decorator.NewRestorerWithImports(cfg.local, cfg.resolverFor())
+		fr := rs.FileRestorer()
+		for k, v := range cfg.overrides {
+			fr.Alias[k] = v
+		}
+		var af2 *ast.File
+		var err error
+		if sig, _ := fw.Try(func() { af2, err = fr.RestoreFile(f2) }); sig != "" || err != nil || af2 == nil {
+			return
+		}
+		var df2 *dst.File
+		if sig, detail := fw.Try(func() {
+			// (the decorator takes the un-vendored form of its own path for local; the restorer under
+			// test compares the path as given: for a vendored own path the second decoration is told
+			// a neutral path, so that it resolves exactly what the first restore wrote)
+			dpath := cfg.local
+			if strings.Contains(dpath, "vendor/") {
+				dpath = "example.com/self"
+			}
+			df2, err = decorator.NewDecoratorWithImports(rs.Fset, dpath, goast.WithResolver(simple.New(c07Names()))).DecorateFile(af2)
+		}); sig != "" {
+			viol("second-pass-panic", "second-pass-panic:"+sig, detail)
+			return
+		}
+		if err != nil || df2 == nil {
+			c.Count("inconclusive_second_pass_refused", 1) // dot-imports
+			return
+		}
+		o2, perr2 := restore(df2)
+		if perr2 != "" {
+			viol("second-pass-restore-failed", "second-pass-restore-failed", perr2)
+			return
+		}
+		c.Count("second_passes", 1)
+		// (blank lines inside the import block are laid out by go/format's import sorting from the
+		// positions it is given and are not compared: the token sequence is)
+		t1, _ := obs.Scan([]byte(c07SortedImports(out)))
+		t2, _ := obs.Scan([]byte(c07SortedImports(o2)))
+		if i := obs.FirstDiff(obs.Syntax(t2), obs.Syntax(t1)); i >= 0 {
+			viol("second-pass-differs", "second-pass-differs", fmt.Sprintf("decorating the restored ast again and restoring it with the same settings gives other tokens (first difference at token %d):\n%s", i, o2))
+		}
+	}()
 	fset := token.NewFileSet()
 	af, err := parser.ParseFile(fset, "", out, parser.ParseComments)
 	if err != nil {
@@ -802,4 +851,27 @@ func c07One(c *fw.Ctx, id string) {
 	if strings.HasSuffix(id, "7") && len(cfg.refs) > 2 {
 		c.Sample(map[string]interface{}{"case": id, "shape": cfg.shape, "resolver": cfg.resolver, "overrides": cfg.overrides, "input": src, "output": out})
 	}
+}
+
+// c07SortedImports rewrites the text with the lines of its import section sorted and its blank and
+// comment lines dropped (go/format orders the specs of a block by runs that blank lines delimit;
+// which run a spec ends up in is layout, not binding).
+func c07SortedImports(src string) string {
+	sec := importSection(src)
+	if sec == "" {
+		return src
+	}
+	var lines []string
+	for _, l := range strings.Split(sec, "\n") {
+		t := strings.TrimSpace(l)
+		if t == "" || strings.HasPrefix(t, "//") {
+			continue
+		}
+		if i := strings.Index(t, " //"); i >= 0 {
+			t = strings.TrimSpace(t[:i])
+		}
+		lines = append(lines, t)
+	}
+	sort.Strings(lines)
+	return strings.Replace(src, sec, strings.Join(lines, "\n")+"\n", 1)
 }
